@@ -208,7 +208,7 @@ func Harness_C02_eku() {
 // iff some returned path uses every submitted certificate in the submitted order (root
 // optional), and the path handed on is that path.
 //
-//verif:opt maxpaths=20000 reach=admitted,rejected
+//verif:opt maxpaths=80000 reach=admitted,rejected
 func Harness_C02_order() {
 	n := 1 + vChoice("n-submitted", 3)
 	raw := c02Setup(n)
@@ -219,6 +219,11 @@ func Harness_C02_order() {
 	if pf < n {
 		c02ParseErr[pf] = errors.New("x509: malformed certificate")
 		c02Certs[pf] = nil
+	}
+	// one of the submitted certificates (or none) is itself in the trusted pool -- a root
+	// submitted with its chain, or a trusted intermediate
+	if tr := vChoice("trusted-submitted", n+1); tr < n && tr != pf {
+		opts.trustedRoots.AddCert(c02Certs[tr])
 	}
 	verr := vBool("verify-error")
 	nch := vChoice("n-chains", 3)
@@ -242,6 +247,18 @@ func Harness_C02_order() {
 	}
 	c02VerifyFn = func(c *x509.Certificate, o x509.VerifyOptions) ([][]*x509.Certificate, error) {
 		vAssert(c == leaf, "path building starts from the submitted leaf")
+		// what the path builder is given: every submitted certificate but the leaf as a candidate
+		// intermediate (trusted or not: a trusted certificate can only end a path, so a chain
+		// that continues past it needs it as an intermediate too), the log's pool as roots, and
+		// the relaxed options
+		subj := o.Intermediates.Subjects()
+		vAssert(len(subj) == n-1, "every submitted certificate except the leaf is offered as an intermediate")
+		for i := 0; i+1 < n && i < len(subj); i++ {
+			vAssert(len(subj[i]) == 1 && subj[i][0] == byte(i+1), "the intermediates are the submitted certificates, in order")
+		}
+		vAssert(o.Roots == opts.trustedRoots.CertPool(), "the roots are the log's trusted pool")
+		vAssert(o.DisableTimeChecks && o.DisableCriticalExtensionChecks && o.DisableEKUChecks && o.DisablePathLenChecks && o.DisableNameConstraintChecks, "relaxed verification options")
+		vAssert(!o.DisableNameChecks, "issuer / subject name chaining stays checked (each certificate names the next one)")
 		if verr {
 			return nil, errors.New("x509: certificate signed by unknown authority")
 		}
